@@ -441,12 +441,12 @@ theorem pres_flip_inverse {op inv : String} (hop : (op, inv) = ("<", ">") ∨ (o
 /-! ## negation, negative numbers, implication, equivalence -/
 
 /-- `_simplify_negation` on the simplified operand -/
-theorem negationRule_sound {t : DataType} {a p r : Expr} (hp : Pres opq p a)
+theorem negationRule_sound {t : DataType} {a p r : Expr}
     (h : (if isTrueLit p then pure falseLit
       else if isFalseLit p then pure trueLit
       else match p with
         | .un _ op2 x => if op2 == Gen.NOT_OPERATOR then pure x else mkNot p
-        | _ => mkNot p : M Expr) = .ok r) : Pres opq r (.un t Gen.NOT_OPERATOR a) := by
+        | _ => mkNot p : M Expr) = .ok r) (hp : Pres opq p a) : Pres opq r (.un t Gen.NOT_OPERATOR a) := by
   intro ρ v hv
   obtain ⟨x, hx, hop⟩ := (eval_un_ok opq).1 hv
   rw [show Gen.NOT_OPERATOR = "not" from rfl, unOp_not] at hop
@@ -537,13 +537,13 @@ theorem impliesRule_sound {t : DataType} {a b r : Expr}
 
 
 /-- `_simplify_negative_number` on the simplified operand -/
-theorem negNumberRule_sound {t : DataType} {a a' r : Expr} (hp : Pres opq a' a)
+theorem negNumberRule_sound {t : DataType} {a a' r : Expr}
     (h : (match numLit? a' with
       | some v => do let n ← pyNeg v; litNumber n
       | none =>
         match a' with
         | .un _ op x => if op == "-" then pure x else mkMinus a'
-        | _ => mkMinus a' : M Expr) = .ok r) : Pres opq r (.un t "-" a) := by
+        | _ => mkMinus a' : M Expr) = .ok r) (hp : Pres opq a' a) : Pres opq r (.un t "-" a) := by
   intro ρ v hv
   obtain ⟨x, hx, hop⟩ := (eval_un_ok opq).1 hv
   rw [unOp_neg] at hop
